@@ -8,7 +8,7 @@ import random
 
 from sim import gen, setup, plan as planmod
 from sim.term import BLANK
-from sim.world import HarnessError, StepCap, Quiescent
+from sim.world import environment_artefact, HarnessError, StepCap, Quiescent
 
 PROP = "C07"
 LEVEL = "exploration"
@@ -266,6 +266,8 @@ def _execute(p, s, res):
     except HarnessError:
         raise
     except Exception as e:
+        if environment_artefact(e):
+            raise HarnessError("stub-environment artefact: %s: %s" % (type(e).__name__, e))
         _violate(res, "enter_raised", -1, {"exception": "%s: %s" % (type(e).__name__, e)})
         return
     try:
@@ -296,6 +298,8 @@ def _execute(p, s, res):
             except HarnessError:
                 raise
             except Exception as e:
+                if environment_artefact(e):
+                    raise HarnessError("stub-environment artefact: %s: %s" % (type(e).__name__, e))
                 _violate(res, "render_raised", si, {"exception": "%s: %s" % (type(e).__name__, e)})
                 return
             A2 = A + [_pad(gen.row_cells(rows[i]), w) for i in range(ret_exp)]
@@ -320,7 +324,7 @@ def _execute(p, s, res):
             if term.scrolls["main"] - scrolls0 != k:
                 _violate(res, "scroll_count", si, {"scrolled": term.scrolls["main"] - scrolls0, "expected": k,
                                                    "h": h, "T": T, "n": n})
-            if got[:len(A2)] != A2:
+            if gen.diff_grid(A2, got[:len(A2)]) is not None:
                 d = gen.diff_grid(A2, got[:len(A2)])
                 _violate(res, "history_altered", si, {"diff": d, "h": h, "w": w, "T": T, "n": n,
                                                       "expected_history": gen.show_grid(A2),
@@ -337,7 +341,7 @@ def _execute(p, s, res):
                 pass        # an empty array has no cell for cursor_pos to designate: not judged
             elif cr >= ret_exp:
                 want = (T2 + cr - ret_exp, cc)
-                if (term.r, term.c) != want or term.pending:
+                if (term.r, term.c) != want:
                     _violate(res, "cursor_position", si, {"expected": list(want), "got": [term.r, term.c],
                                                           "pending_wrap": term.pending, "T": T2, "returned": ret})
             else:
@@ -360,18 +364,22 @@ def _execute(p, s, res):
         except HarnessError:
             raise
         except Exception as e:
+            if environment_artefact(e):
+                raise HarnessError("stub-environment artefact: %s: %s" % (type(e).__name__, e))
             _violate(res, "exit_raised", len(p["steps"]), {"exception": "%s: %s" % (type(e).__name__, e)})
     if cfg["keep_last_line"] and on_bottom:
         world.probe("exit_keep_last_line_on_bottom")
     got = term.document()
     world.log.add("exit", term.r, term.c, len(term.scrollback), term.cursor_visible)
-    if not res["violation"] and got[:keep_upto] != doc_before[:keep_upto]:
+    if not res["violation"] and cfg["keep_last_line"] and gen.diff_grid(doc_before[:keep_upto], got[:keep_upto]) is not None:
+        # (only with keep_last_line, whose documented purpose is to leave the last line in place; without it
+        # the statement protects nothing but the history above the window's first row)
         d = gen.diff_grid(doc_before[:keep_upto], got[:keep_upto])
         name = "history_altered_at_exit" if d and d.get("row", 10 ** 9) < len(A) else "exit_erased_above_cursor"
         _violate(res, name, len(p["steps"]),
                  {"diff": d, "keep_last_line": cfg["keep_last_line"], "cursor_on_bottom_row": on_bottom,
                   "before": gen.show_grid(doc_before), "after": gen.show_grid(got)})
-    if got[:len(A)] != A:
+    if gen.diff_grid(A, got[:len(A)]) is not None:
         _violate(res, "history_altered_at_exit", len(p["steps"]),
                  {"diff": gen.diff_grid(A, got[:len(A)]), "expected_history": gen.show_grid(A), "got": gen.show_grid(got)})
     if term.sb_cleared:
